@@ -458,19 +458,37 @@ Definition process_raw_file_for_config (d : dict) (raw : text) : res dict :=
             (splitlines raw) (Ok d).
 
 (* ---- linter: the config a file is linted with ---------------------------------------------------------------------- *)
-(* Linter.load_raw_file_and_config(fname, root_config): root_config.make_child_from_path(fname) -- which requires the
-   dialect BEFORE the file is read -- and then the file's inline directives.  (require_dialect = false is the same pipeline
-   with FluffConfig.from_path(..., require_dialect=False).) *)
-Definition file_config (f : fsys) (e : env) (rt : root) (require_dialect : bool) (sqlfile : path * text) : res dict :=
-  do c <- from_path f e rt require_dialect (fst sqlfile);
+(* FluffConfig.verify_dialect_specified: self._configs["core"].get("dialect", None) is None -> SQLFluffUserError *)
+Definition verify_dialect (c : dict) : res unit :=
+  match lookup [core; dialect_key] c with
+  | Some (Leaf v) => if is_none v then Err ERuntime else Ok tt
+  | Some (Dict _) => Ok tt
+  | None => Err ERuntime
+  end.
+
+(* the first half of Linter.load_raw_file_and_config(fname, root_config):
+   root_config.make_child_from_path(fname, require_dialect=False), then the file's inline directives *)
+Definition inline_config (f : fsys) (e : env) (rt : root) (sqlfile : path * text) : res dict :=
+  do c <- from_path f e rt false (fst sqlfile);
   process_raw_file_for_config c (snd sqlfile).
+
+(* Linter.load_raw_file_and_config: ... and only now, with the inline directives applied, is a dialect required *)
+Definition file_config (f : fsys) (e : env) (rt : root) (sqlfile : path * text) : res dict :=
+  do c <- inline_config f e rt sqlfile;
+  do _ <- verify_dialect c;
+  Ok c.
 
 (* a run over a sequence of files (Linter.lint_paths, sequential runner) *)
 Definition run (f : fsys) (e : env) (rt : root) (files : list (path * text)) : list (res dict) :=
-  map (file_config f e rt true) files.
+  map (file_config f e rt) files.
 
-(* Linter.parse_string / lint_string: a copy of the given config plus the string's inline directives *)
+(* Linter.parse_string / lint_string: a copy of the given config plus the string's inline directives ... *)
 Definition string_config (base : dict) (raw : text) : res dict := process_raw_file_for_config base raw.
+(* ... and render_string's config.verify_dialect_specified() *)
+Definition string_lint_config (base : dict) (raw : text) : res dict :=
+  do c <- string_config base raw;
+  do _ <- verify_dialect c;
+  Ok c.
 
 (* ---- the same run with the two functools caches as explicit state ---------------------------------------------------- *)
 (* load_config_file_as_dict is cached per file path, load_config_at_path per directory path (the argument string).
@@ -552,8 +570,10 @@ Definition load_config_up_to_path_c (f : fsys) (e : env) (pth : path) (extra : o
 Definition file_config_c (f : fsys) (e : env) (rt : root) (sqlfile : path * text) : M dict :=
   mbind (load_config_up_to_path_c f e (fst sqlfile) (r_extra rt) (r_ignore_local rt)) (fun configs =>
   mlift (do c <- fluff_init (r_defaults rt) configs (r_overrides rt);
-         do _ <- dialect_check true c;
-         process_raw_file_for_config c (snd sqlfile))).
+         do _ <- dialect_check false c;
+         do c' <- process_raw_file_for_config c (snd sqlfile);
+         do _ <- verify_dialect c';
+         Ok c')).
 
 (* the run with the caches threaded from file to file; a failing file does not stop the run (each file has its own result) *)
 Fixpoint run_c (f : fsys) (e : env) (rt : root) (files : list (path * text)) (c : caches) : list (res dict) * caches :=
@@ -644,6 +664,10 @@ Definition spec_kind (f : fsys) (e : env) (rt : root) (sf : path * text) (config
                 ++ (if configs_empty then [kind_at p [(core, Dict [])]]
                     else map (okind p) (file_layers f e (fst sf) (r_extra rt) (r_ignore_local rt)))
                 ++ [kind_at p (core_wrap (r_overrides rt))])).
+
+(* is what is observed at core:dialect a dialect (verify_dialect_specified in terms of the observation) *)
+Definition dialect_ok (k : option (option V)) : bool :=
+  match k with Some (Some v) => negb (is_none v) | Some None => true | None => false end.
 
 Definition is_nil {A} (l : list A) : bool := match l with [] => true | _ => false end.
 
